@@ -1756,6 +1756,8 @@ func (ex *Executor) SetupRedirects(pkg *ssa.Package) {
 		"(*sync.Once).Do":   "verifModelOnceDo",
 		"errors.Is":         "verifModelErrorsIs",
 		"context.Cause":     "verifModelContextCause",
+		"sort.SliceStable":  "verifModelSliceStable",
+		"sort.Slice":        "verifModelSliceStable",
 		"(*bytes.Reader).WriteTo": "verifModelReaderWriteTo",
 		"os.Stat":                 "verifModelStat",
 		"(*os.File).Stat":         "verifModelFStat",
